@@ -25,6 +25,7 @@ static const char* RULES =
     "rule md5len { condition: hash.md5(0, filesize) != \"\" and tests.constants.one == 1 }\n"
     "rule fs { condition: filesize > 12 }\n"
     "rule many { strings: $q = \"q\" condition: #q > 2 }\n"
+    "rule logs { condition: console.log(filesize) and console.hex(filesize) and console.log(ext) and console.log(1.5 * filesize) and console.log(\"f=\", 0.5 * filesize) and console.hex(\"x=\", filesize) and console.log(\"e=\", ext) }\n"
     "rule md5v { condition: console.log(\"md5=\", hash.md5(0, filesize)) and console.log(\"sha=\", hash.sha1(1, 4)) }\n";
 
 static const char* BUFS[6] = {"xx abcd ab abbbcd", "abababab-no-d", "abcdabcdabcd abcd", "zz", "qqqqqqqqqqqq", "xx q q q zz"};   /* 4: exceeds the per-string match limit of the scaled build (8) */
@@ -62,7 +63,11 @@ static int cb(YR_SCAN_CONTEXT* ctx, int msg, void* data, void* ud) {
   }
   t->nmsg++;
   int k = (msg == CALLBACK_MSG_RULE_MATCHING || msg == CALLBACK_MSG_RULE_NOT_MATCHING) ? t->nrule++ : -100;
+  char seen[96]; seen[0] = 0;
+  if (msg == CALLBACK_MSG_CONSOLE_LOG) { strncpy(seen, (const char*) data, sizeof seen - 1); seen[sizeof seen - 1] = 0; }
   yv_point("cb");
+  /* the message belongs to this callback invocation until it returns: whatever the other threads did meanwhile, it must read the same */
+  if (msg == CALLBACK_MSG_CONSOLE_LOG && strncmp(seen, (const char*) data, sizeof seen - 1) != 0) add_viol("console-message-changed-while-its-callback-ran");
   if (k == t->abort_at) return CALLBACK_ABORT;
   if (k == t->error_at) return CALLBACK_ERROR;
   return CALLBACK_CONTINUE;
